@@ -84,7 +84,7 @@ void runEnc(const json& ep)
                 logBatchPacket(o, p);
             o.endArr();
             o.obj("ctx").kv("min", ctx.minBytesPerMessage).kv("max", ctx.maxBytesPerMessage).end();
-            logFrames(o, "frames", frames);
+            logFrames(o, "frames", frames, ctx.maxBytesPerMessage);
             logState(o, enc);
             if (op.value("fresh", true))
             {
@@ -93,7 +93,7 @@ void runEnc(const json& ep)
                 fresh.setDeviceId(enc.getDeviceId());
                 fresh.setStreamId(enc.getStreamId());
                 auto ff = encodeWith(fresh, batch, ctx, overload);
-                logFrames(o, "fresh", ff);
+                logFrames(o, "fresh", ff, ctx.maxBytesPerMessage);
             }
             if (op.value("decode", true))
             {
